@@ -594,7 +594,8 @@ func returnsNonNilError(b *ssa.BasicBlock) bool {
 		last := b.Instrs[len(b.Instrs)-1]
 		switch t := last.(type) {
 		case *ssa.Return:
-			for _, res := range t.Results {
+			for i := range t.Results {
+				res := retValue(t, i)
 				if types.Identical(res.Type(), types.Universe.Lookup("error").Type()) && !isNilConst(res) {
 					return true
 				}
